@@ -360,6 +360,12 @@ def _helpers(prog, chk, V4):
                 continue
             c = children(n)
             cond = strip(c[0])
+            # a condition held in a named flag (`const bool is_exhausted = iter == end; if (is_exhausted) throw`)
+            hops = 0
+            while cond.get('kind') == 'DeclRefExpr' and hops < 3 and \
+                    (cond.get('referencedDecl') or {}).get('id') in program.single_assignment_locals(f.node):
+                cond = strip(program.single_assignment_locals(f.node)[cond['referencedDecl']['id']])
+                hops += 1
             while cond.get('kind') == 'UnaryOperator' and cond.get('opcode') == '!' and \
                     strip(children(cond)[0]).get('kind') == 'UnaryOperator' and strip(children(cond)[0]).get('opcode') == '!':
                 cond = strip(children(strip(children(cond)[0]))[0])
@@ -406,7 +412,7 @@ def _helpers(prog, chk, V4):
                 for x in (a, b):
                     if x.get('kind') == 'MemberExpr':
                         base = strip(children(x)[0], explicit=True)
-                        if _is_iter_deref(base, it_id):
+                        if _is_iter_deref(base, it_id, f):
                             mem = x.get('name')
                     elif x.get('kind') == 'DeclRefExpr':
                         rid = (x.get('referencedDecl') or {}).get('id')
@@ -423,9 +429,10 @@ def _helpers(prog, chk, V4):
                               'a deviation in that attribute is accepted' % (short, par, mem, compared.get(par)))
 
 
-def _is_iter_deref(n, it_id):
-    # iter->x : CXXOperatorCallExpr operator-> on iter
-    for x in walk(n):
+def _is_iter_deref(n, it_id, f=None):
+    # iter->x : CXXOperatorCallExpr operator-> on iter; or a single-assignment local alias of the entry
+    # (`const table_info_entry& actual = *iter;`)
+    for x in (program.walk_expanded(n, f.node) if f is not None else walk(n)):
         if x.get('kind') == 'DeclRefExpr' and (x.get('referencedDecl') or {}).get('id') == it_id:
             return True
     return False
@@ -481,24 +488,53 @@ def _throws_inconsistency(thr):
     return t.replace('const ', '').split('::')[-1] == 'database_inconsistency'
 
 
-def _listing_complete(prog, chk, V7):
+def _executed_statements(prog, f, depth=0, binding=None):
+    """(site, text) of the statements a function executes itself or through the repository functions it calls
+    (a constructor body factored into a private member: `populate(db, "PRAGMA " + db_name + ".table_info", t)`),
+    SQL text assembled from a parameter read with the argument of the call in its place."""
     from .. import sites as _sites
+    out = []
+    binding = binding or {}
+    for st in _sites.find_sites(f):
+        parts, changed = schemas._subst_parts(st.sql_parts, binding)
+        out.append((st, schemas._clone_site(st, parts).text if changed else st.text))
+    if depth >= 3 or f.body is None:
+        return out
+    env = _sites._string_locals(f)
+    for n in walk(f.body):
+        if n.get('kind') not in ('CallExpr', 'CXXMemberCallExpr'):
+            continue
+        t = schemas._repo_callee(prog, f, n)
+        if t is None or t.key == f.key:
+            continue
+        args = children(n)[1:]
+        b = {}
+        for i, p_ in enumerate(t.params):
+            ty = (p_.get('dtype') or p_.get('type') or '')
+            if i < len(args) and ('string' in ty or 'char' in ty):
+                parts, _ = schemas._subst_parts(_sites._merge(_sites.sql_parts(args[i], env)), binding)
+                b[p_.get('id')] = _sites._merge(parts)
+        out.extend(_executed_statements(prog, t, depth + 1, b))
+    return out
+
+
+def _listing_complete(prog, chk, V7):
     n = 0
     for f in prog.functions.values():
         if f.body is None or f.kind != 'CXXConstructorDecl' or 'schema_validate_utils' not in (f.file or ''):
             continue
         if (f.cls or '').split('::')[-1] != 'table_info':
             continue
-        for st in _sites.find_sites(f):
+        for st, text in _executed_statements(prog, f):
             n += 1
             short = '%s(%s)' % ((f.qualname or '').split('::')[-1], ', '.join(p.get('name') for p in f.params[1:]))
-            if re.search(r'\btable_xinfo\b', st.text, re.I):
+            if re.search(r'\btable_xinfo\b', text, re.I):
                 chk.ok(V7, '%s lists columns with table_xinfo' % short, locstr(st.node))
             else:
                 chk.violation(V7, 'table_info|columns listed with table_info', locstr(st.node),
                               '%s reads %r: PRAGMA table_info omits generated columns, so `ALTER TABLE t ADD COLUMN x '
                               'INTEGER GENERATED ALWAYS AS (1) VIRTUAL` adds a column verify() does not see (an '
-                              'ordinary extra column is reported)' % (short, st.text))
+                              'ordinary extra column is reported)' % (short, text))
     if n < 2:
         raise AnalysisBroken('V7: the column listing helper was not found')
 
